@@ -1,6 +1,12 @@
 (* C18 property theorems.  Statements + exact + Check pin + Print Assumptions only. *)
 From ZV.Common Require Import Base.
 From ZV.C18 Require Import Model ProofsQueue ProofsOrder ProofsProgress ProofsComplete ProofsPar ProofsStream.
+From ZV.C18 Require Import ModelFiber ProofsFiber ProofsFiberReduce.
+From ZV.C18 Require Import ModelPipe ProofsPipe ProofsPipeStream.
+From ZV.C18 Require Import ModelExec ProofsExec ProofsExec2.
+From ZV.C18 Require Import ModelGlobalPar ProofsGlobalPar.
+(* the dispatcher the harness-generated case files import: listed here so that building this file builds it *)
+From ZV.C18 Require ModelCases.
 From Coq Require Import Permutation.
 Open Scope N_scope.
 
@@ -246,3 +252,446 @@ Check collector_order :
     concat (cout c) ++ cbuf c = added ops /\
     (0 < maxb -> Forall (fun b => b <> [] /\ nlen b <= maxb) (cout c) /\ nlen (cbuf c) < maxb).
 Print Assumptions collector_order.
+
+(* FiberPool::parallel_map as the pool state machine (spawn with the semaphore of max_fibers permits, bodies that
+   return Ok, Err or panic, handles awaited in index order with `?`): for every input, every max_fibers and EVERY
+   schedule of spawn / acquire / run / finish steps, whenever the call returns it returns map g xs if every item
+   succeeds (order preserved, one result per item), and Err if some item fails or panics - never a shorter, shifted
+   or reordered vector; and with max_fibers >= 1 every schedule can be continued to one in which it returns
+   (no deadlock on the semaphore, also with fewer permits than items) *)
+Theorem parallel_map_is_map :
+  forall (A B : Type) (f : A -> outcome B) (g : A -> B) (xs : list A) (maxf : N) (steps : list pstep),
+    (forall r, pm_result (map f xs) (pool_run (map f xs) maxf steps) = Some r ->
+       ((forall x, In x xs -> f x = OOk (g x)) -> r = ROk (map g xs)) /\
+       ((exists x, In x xs /\ forall b, f x <> OOk b) -> r = RErr)) /\
+    (1 <= maxf -> exists more, pm_result (map f xs) (pool_run (map f xs) maxf (steps ++ more)) <> None).
+Proof. exact parallel_map_is_map_proof. Qed.
+Check parallel_map_is_map :
+  forall (A B : Type) (f : A -> outcome B) (g : A -> B) (xs : list A) (maxf : N) (steps : list pstep),
+    (forall r, pm_result (map f xs) (pool_run (map f xs) maxf steps) = Some r ->
+       ((forall x, In x xs -> f x = OOk (g x)) -> r = ROk (map g xs)) /\
+       ((exists x, In x xs /\ forall b, f x <> OOk b) -> r = RErr)) /\
+    (1 <= maxf -> exists more, pm_result (map f xs) (pool_run (map f xs) maxf (steps ++ more)) <> None).
+Print Assumptions parallel_map_is_map.
+
+(* parallel_for_each / every use of spawn: in every reachable state no body has run twice and only spawned bodies
+   ran; once all fibers are done every body has run exactly once (the execution log is a permutation of the
+   indices) - also the bodies behind a failed one, which parallel_for_each no longer waits for; an Ok return means
+   every item was visited exactly once and succeeded; an Err return means some body really failed *)
+Theorem parallel_for_each_visits_once :
+  forall (R : Type) (jobs : list (outcome R)) (maxf : N) (steps : list pstep),
+    let p := pool_run jobs maxf steps in
+    NoDup (p_log p) /\ (forall i, In i (p_log p) -> (i < length jobs)%nat) /\
+    (pool_done jobs p = true -> Permutation (p_log p) (seq 0 (length jobs))) /\
+    (forall l, pm_result jobs p = Some (ROk l) -> Permutation (p_log p) (seq 0 (length jobs)) /\ jobs = map OOk l) /\
+    (pm_result jobs p = Some RErr -> exists i o, nth_error jobs i = Some o /\ forall r, o <> OOk r).
+Proof. exact parallel_for_each_visits_once_proof. Qed.
+Check parallel_for_each_visits_once :
+  forall (R : Type) (jobs : list (outcome R)) (maxf : N) (steps : list pstep),
+    let p := pool_run jobs maxf steps in
+    NoDup (p_log p) /\ (forall i, In i (p_log p) -> (i < length jobs)%nat) /\
+    (pool_done jobs p = true -> Permutation (p_log p) (seq 0 (length jobs))) /\
+    (forall l, pm_result jobs p = Some (ROk l) -> Permutation (p_log p) (seq 0 (length jobs)) /\ jobs = map OOk l) /\
+    (pm_result jobs p = Some RErr -> exists i o, nth_error jobs i = Some o /\ forall r, o <> OOk r).
+Print Assumptions parallel_for_each_visits_once.
+
+(* The semaphore and the statistics in every reachable state: permits + fibers holding one = max_fibers (never more
+   than max_fibers bodies in flight), total_spawned / completed / failed count what they say, active_fibers counts
+   the permit holders plus the panicked bodies (as written: a panic skips the decrement), and when all fibers are
+   done all permits are back (shutdown() returns) and completed + failed + panicked = number of items *)
+Theorem fiber_pool_bounded :
+  forall (R : Type) (jobs : list (outcome R)) (maxf : N) (steps : list pstep),
+    let p := pool_run jobs maxf steps in
+    p_permits p + N.of_nat (count holds_permit (p_fibers p)) = maxf /\
+    p_spawned p = N.of_nat (length (p_fibers p)) /\
+    p_completed p = N.of_nat (count is_ok_done (p_fibers p)) /\
+    p_failed p = N.of_nat (count is_fail_done (p_fibers p)) /\
+    p_active p = N.of_nat (count holds_permit (p_fibers p) + count is_panic_done (p_fibers p)) /\
+    (pool_done jobs p = true -> p_permits p = maxf /\
+       p_completed p + p_failed p + N.of_nat (count is_panic_done (p_fibers p)) = N.of_nat (length jobs)).
+Proof. exact fiber_pool_bounded_proof. Qed.
+Check fiber_pool_bounded :
+  forall (R : Type) (jobs : list (outcome R)) (maxf : N) (steps : list pstep),
+    let p := pool_run jobs maxf steps in
+    p_permits p + N.of_nat (count holds_permit (p_fibers p)) = maxf /\
+    p_spawned p = N.of_nat (length (p_fibers p)) /\
+    p_completed p = N.of_nat (count is_ok_done (p_fibers p)) /\
+    p_failed p = N.of_nat (count is_fail_done (p_fibers p)) /\
+    p_active p = N.of_nat (count holds_permit (p_fibers p) + count is_panic_done (p_fibers p)) /\
+    (pool_done jobs p = true -> p_permits p = maxf /\
+       p_completed p + p_failed p + N.of_nat (count is_panic_done (p_fibers p)) = N.of_nat (length jobs)).
+Print Assumptions fiber_pool_bounded.
+
+(* The chunking of FiberPool::parallel_reduce as written (chunk_size = max(1, len / max(1, max_workers)),
+   items.chunks(chunk_size)): for every length and worker count - len < workers, len % chunk_size <> 0, workers = 0
+   included - the chunks concatenate to the input (every item in exactly one chunk, the trailing partial chunk
+   included), none is empty or longer than chunk_size, and at most 2 * max(1, max_workers) fibers are spawned *)
+Theorem reduce_chunks_partition :
+  forall (T : Type) (mw : N) (xs : list T),
+    concat (fp_chunks mw xs) = xs /\
+    Forall (fun c => c <> [] /\ nlen c <= chunk_size (nlen xs) mw) (fp_chunks mw xs) /\
+    nlen (fp_chunks mw xs) <= 2 * N.max 1 mw.
+Proof. exact (@fp_chunks_shape). Qed.
+Check reduce_chunks_partition :
+  forall (T : Type) (mw : N) (xs : list T),
+    concat (fp_chunks mw xs) = xs /\
+    Forall (fun c => c <> [] /\ nlen c <= chunk_size (nlen xs) mw) (fp_chunks mw xs) /\
+    nlen (fp_chunks mw xs) <= 2 * N.max 1 mw.
+Print Assumptions reduce_chunks_partition.
+
+(* FiberPool::parallel_reduce through the pool state machine: for an associative function with a two-sided identity,
+   every input, max_workers, max_fibers and every schedule of the chunk fibers, whenever the call returns it
+   returns the sequential left fold of all items; and with max_fibers >= 1 it can always return *)
+Theorem parallel_reduce_is_fold :
+  forall (T : Type) (g : T -> T -> T) (ident : T),
+    (forall a b c, g (g a b) c = g a (g b c)) -> (forall a, g ident a = a) -> (forall a, g a ident = a) ->
+    forall (mw maxf : N) (xs : list T) (steps : list pstep),
+      let op := fun a b => Some (g a b) in
+      (forall r, reduce_result op ident mw xs (pool_run (reduce_jobs op ident mw xs) maxf steps) = Some r ->
+                 r = Some (fold_left g xs ident)) /\
+      (1 <= maxf -> exists more,
+         reduce_result op ident mw xs (pool_run (reduce_jobs op ident mw xs) maxf (steps ++ more)) <> None).
+Proof. exact parallel_reduce_is_fold_proof. Qed.
+Check parallel_reduce_is_fold :
+  forall (T : Type) (g : T -> T -> T) (ident : T),
+    (forall a b c, g (g a b) c = g a (g b c)) -> (forall a, g ident a = a) -> (forall a, g a ident = a) ->
+    forall (mw maxf : N) (xs : list T) (steps : list pstep),
+      let op := fun a b => Some (g a b) in
+      (forall r, reduce_result op ident mw xs (pool_run (reduce_jobs op ident mw xs) maxf steps) = Some r ->
+                 r = Some (fold_left g xs ident)) /\
+      (1 <= maxf -> exists more,
+         reduce_result op ident mw xs (pool_run (reduce_jobs op ident mw xs) maxf (steps ++ more)) <> None).
+Print Assumptions parallel_reduce_is_fold.
+
+(* ... and if the function fails on some item whatever the accumulator, every schedule that returns returns Err *)
+Theorem parallel_reduce_error_surfaces :
+  forall (T : Type) (op : T -> T -> option T) (ident : T) (mw maxf : N) (xs : list T) (steps : list pstep) (x : T),
+    In x xs -> (forall a, op a x = None) ->
+    forall r, reduce_result op ident mw xs (pool_run (reduce_jobs op ident mw xs) maxf steps) = Some r -> r = None.
+Proof. exact parallel_reduce_error_proof. Qed.
+Check parallel_reduce_error_surfaces :
+  forall (T : Type) (op : T -> T -> option T) (ident : T) (mw maxf : N) (xs : list T) (steps : list pstep) (x : T),
+    In x xs -> (forall a, op a x = None) ->
+    forall r, reduce_result op ident mw xs (pool_run (reduce_jobs op ident mw xs) maxf steps) = Some r -> r = None.
+Print Assumptions parallel_reduce_error_surfaces.
+
+(* Pipeline::execute_stream with the join loop as written (handles awaited in stage order, the first error kept) and
+   stage functions that may succeed, fail with an error of their own, time out or panic on each item: for every
+   non-empty stage list, input and interleaving of the stage tasks, once all stage tasks have ended the call
+   returns; if ANY stage function fails, times out or panics on an item that reaches it in the sequential run the
+   call returns Err (whichever stage it is - first, middle or last); and an Err that is returned is genuine: it is the
+   outcome of the lowest-numbered failed stage (all stages before it ended Ok) and the error of that stage's function
+   on an item of its sequential input stream (a panic is a join error) *)
+Theorem pipeline_error_surfaces :
+  forall (A : Type) (fs : list (A -> sres A)) (inputs : list A) (sched : list nat),
+    fs <> [] ->
+    let st := pstream_run fs inputs sched in
+    pstream_finished st = true ->
+    (exists r, exec_stream_result fs st = Some r) /\
+    ((exists j f x, nth_error fs j = Some f /\ In x (want_upto (map erase_f fs) inputs j) /\ forall y, f x <> SOk y) ->
+       exists e, exec_stream_result fs st = Some (Some e)) /\
+    (forall e, exec_stream_result fs st = Some (Some e) ->
+       exists j f s, nth_error fs j = Some f /\ nth_error st j = Some s /\ stage_err (g_status s) = Some e /\
+         (forall i s', (i < j)%nat -> nth_error st i = Some s' -> stage_err (g_status s') = None) /\
+         exists x, In x (want_upto (map erase_f fs) inputs j) /\ err_of (f x) = Some e).
+Proof. exact (@pipeline_error_proof). Qed.
+Check pipeline_error_surfaces :
+  forall (A : Type) (fs : list (A -> sres A)) (inputs : list A) (sched : list nat),
+    fs <> [] ->
+    let st := pstream_run fs inputs sched in
+    pstream_finished st = true ->
+    (exists r, exec_stream_result fs st = Some r) /\
+    ((exists j f x, nth_error fs j = Some f /\ In x (want_upto (map erase_f fs) inputs j) /\ forall y, f x <> SOk y) ->
+       exists e, exec_stream_result fs st = Some (Some e)) /\
+    (forall e, exec_stream_result fs st = Some (Some e) ->
+       exists j f s, nth_error fs j = Some f /\ nth_error st j = Some s /\ stage_err (g_status s) = Some e /\
+         (forall i s', (i < j)%nat -> nth_error st i = Some s' -> stage_err (g_status s') = None) /\
+         exists x, In x (want_upto (map erase_f fs) inputs j) /\ err_of (f x) = Some e).
+Print Assumptions pipeline_error_surfaces.
+
+(* ... and under every interleaving what has been delivered is a prefix of the sequential result (stage after stage
+   in input order); when all stage tasks have ended and execute_stream returns Ok(()) it is the complete sequential
+   result, one output per input *)
+Theorem pipeline_order_preserved :
+  forall (A : Type) (fs : list (A -> sres A)) (inputs : list A) (sched : list nat),
+    let st := pstream_run fs inputs sched in
+    (exists rest, stream_want (map erase_f fs) inputs = pstream_output fs inputs st ++ rest) /\
+    (pstream_finished st = true -> exec_stream_result fs st = Some None ->
+       pstream_output fs inputs st = stream_want (map erase_f fs) inputs /\
+       length (pstream_output fs inputs st) = length inputs).
+Proof. exact (@pipeline_order_proof). Qed.
+Check pipeline_order_preserved :
+  forall (A : Type) (fs : list (A -> sres A)) (inputs : list A) (sched : list nat),
+    let st := pstream_run fs inputs sched in
+    (exists rest, stream_want (map erase_f fs) inputs = pstream_output fs inputs st ++ rest) /\
+    (pstream_finished st = true -> exec_stream_result fs st = Some None ->
+       pstream_output fs inputs st = stream_want (map erase_f fs) inputs /\
+       length (pstream_output fs inputs st) = length inputs).
+Print Assumptions pipeline_order_preserved.
+
+(* Pipeline::process_batch as written, item by item (path 0: one timeout per item, `??`) or through the stage's default
+   process_batch under one timeout (path <> 0): Ok(l) means one result per input, in input order, each the stage's
+   result for that input, and the statistics are restored (total_processed += n, items_in_flight unchanged); if some
+   item fails, times out or panics the call does not return Ok; an Err is the error of the FIRST item in input order
+   that is not Ok (its own error, or the per-item resp. whole-batch timeout) and every item before it succeeded *)
+Theorem process_batch_is_map :
+  forall (A B : Type) (path : N) (f : A -> sres B) (xs : list A) (st : pstats) r st',
+    process_batch path f xs st = (r, st') ->
+    (forall l, r = COk l ->
+       Forall2 (fun x y => f x = SOk y) xs l /\
+       ps_processed st' = ps_processed st + nlen xs /\ ps_in_flight st' = ps_in_flight st) /\
+    ((exists x, In x xs /\ forall y, f x <> SOk y) -> forall l, r <> COk l) /\
+    (forall e, r = CErr e ->
+       exists pre x post, xs = pre ++ x :: post /\ (forall z, In z pre -> exists y, f z = SOk y) /\
+                          item_err f (batch_tmo path) x = Some e).
+Proof. exact process_batch_proof. Qed.
+Check process_batch_is_map :
+  forall (A B : Type) (path : N) (f : A -> sres B) (xs : list A) (st : pstats) r st',
+    process_batch path f xs st = (r, st') ->
+    (forall l, r = COk l ->
+       Forall2 (fun x y => f x = SOk y) xs l /\
+       ps_processed st' = ps_processed st + nlen xs /\ ps_in_flight st' = ps_in_flight st) /\
+    ((exists x, In x xs /\ forall y, f x <> SOk y) -> forall l, r <> COk l) /\
+    (forall e, r = CErr e ->
+       exists pre x post, xs = pre ++ x :: post /\ (forall z, In z pre -> exists y, f z = SOk y) /\
+                          item_err f (batch_tmo path) x = Some e).
+Print Assumptions process_batch_is_map.
+
+(* execute_two_stage = the second stage applied to the first stage's result; the first failure (error, timeout, panic) is what the caller gets *)
+Theorem two_stage_composes :
+  forall (A B C : Type) (f1 : A -> sres B) (f2 : B -> sres C) (x : A) (st : pstats),
+    fst (exec_two_stage f1 f2 x st) =
+      match f1 x with
+      | SOk y => match f2 y with SOk z => COk z | SFail e => CErr (EStage e) | STimeout => CErr ETimeout | SPanic => CPanic end
+      | SFail e => CErr (EStage e)
+      | STimeout => CErr ETimeout
+      | SPanic => CPanic
+      end.
+Proof. exact exec_two_stage_proof. Qed.
+Check two_stage_composes :
+  forall (A B C : Type) (f1 : A -> sres B) (f2 : B -> sres C) (x : A) (st : pstats),
+    fst (exec_two_stage f1 f2 x st) =
+      match f1 x with
+      | SOk y => match f2 y with SOk z => COk z | SFail e => CErr (EStage e) | STimeout => CErr ETimeout | SPanic => CPanic end
+      | SFail e => CErr (EStage e)
+      | STimeout => CErr ETimeout
+      | SPanic => CPanic
+      end.
+Print Assumptions two_stage_composes.
+
+(* BatchCollector with a clock and concurrent checkers: for every max_batch_size, batch_timeout and every history of
+   add / flush / check_timeout / passing time - check_timeout also split into its two critical sections, several
+   checker tasks interleaved with adds between them - the batches the operations return, in the order of the
+   operations, followed by the buffer are exactly the added items in order (nothing lost, duplicated or reordered by a
+   timeout flush); no returned batch is empty; with max_batch_size >= 1 no batch is longer than it *)
+Theorem batch_collector_partition :
+  forall (A : Type) (maxb timeout : N) (ops : list (bop A)) bf outs,
+    bc_run maxb timeout bc_init ops = (bf, outs) ->
+    cat_outs outs ++ bc_buf bf = badded ops /\
+    length outs = length ops /\
+    Forall (fun o => match o with Some l => l <> [] | None => True end) outs /\
+    (0 < maxb -> nlen (bc_buf bf) < maxb /\ Forall (fun o => match o with Some l => nlen l <= maxb | None => True end) outs).
+Proof. exact batch_collector_proof. Qed.
+Check batch_collector_partition :
+  forall (A : Type) (maxb timeout : N) (ops : list (bop A)) bf outs,
+    bc_run maxb timeout bc_init ops = (bf, outs) ->
+    cat_outs outs ++ bc_buf bf = badded ops /\
+    length outs = length ops /\
+    Forall (fun o => match o with Some l => l <> [] | None => True end) outs /\
+    (0 < maxb -> nlen (bc_buf bf) < maxb /\ Forall (fun o => match o with Some l => nlen l <= maxb | None => True end) outs).
+Print Assumptions batch_collector_partition.
+
+(* an undisturbed check_timeout returns the whole buffer exactly when it is non-empty and batch_timeout has passed since the last flush; otherwise it returns nothing and changes nothing *)
+Theorem collector_timeout_not_early :
+  forall (A : Type) (maxb timeout : N) (b : bcoll A),
+    (bc_due timeout b = true ->
+       bc_step maxb timeout b BCheck = (mkBC [] (bc_now b) (bc_now b) (bc_pending b), Some (bc_buf b))
+       /\ bc_buf b <> [] /\ timeout <= bc_now b - bc_last b) /\
+    (bc_due timeout b = false -> bc_step maxb timeout b BCheck = (b, None)).
+Proof. exact (@bc_check_due). Qed.
+Check collector_timeout_not_early :
+  forall (A : Type) (maxb timeout : N) (b : bcoll A),
+    (bc_due timeout b = true ->
+       bc_step maxb timeout b BCheck = (mkBC [] (bc_now b) (bc_now b) (bc_pending b), Some (bc_buf b))
+       /\ bc_buf b <> [] /\ timeout <= bc_now b - bc_last b) /\
+    (bc_due timeout b = false -> bc_step maxb timeout b BCheck = (b, None)).
+Print Assumptions collector_timeout_not_early.
+
+(* The executor at the granularity of its atomic operations: several threads inside submit() (the fetch_add + capacity
+   probe, push_local and the global insertion are separate critical sections - a submission can lose the race and
+   is then rejected), every find_task critical section of every worker, active_tasks += 1, the task body,
+   total_executed += 1, active_tasks -= 1, the periodic and the public balance() - for every capacity, number of
+   workers, number of submitting threads and EVERY interleaving of these steps: queued + held by a worker + executed
+   is exactly the multiset of the submissions that returned Ok (no accepted task is lost or duplicated, no rejected
+   task is kept); with distinct identities nothing is held twice; when nothing is queued or held the executed list is
+   the accepted list up to order *)
+Theorem executor_conservation :
+  forall (cap : N) (nw nsub : nat) (steps : list xstep),
+    let x := xrun cap nw nsub steps in
+    Permutation (queued (x_e x) ++ x_held x ++ edone (x_e x)) (x_acc x) /\
+    (NoDup (map tid (x_acc x)) -> NoDup (map tid (queued (x_e x) ++ x_held x ++ edone (x_e x)))) /\
+    (queued (x_e x) = [] -> x_held x = [] -> Permutation (edone (x_e x)) (x_acc x)).
+Proof. exact executor_conservation_proof. Qed.
+Check executor_conservation :
+  forall (cap : N) (nw nsub : nat) (steps : list xstep),
+    let x := xrun cap nw nsub steps in
+    Permutation (queued (x_e x) ++ x_held x ++ edone (x_e x)) (x_acc x) /\
+    (NoDup (map tid (x_acc x)) -> NoDup (map tid (queued (x_e x) ++ x_held x ++ edone (x_e x)))) /\
+    (queued (x_e x) = [] -> x_held x = [] -> Permutation (edone (x_e x)) (x_acc x)).
+Print Assumptions executor_conservation.
+
+(* ... and in every reachable state the statistics mean what they say: active_tasks = number of workers between
+   active_tasks += 1 and active_tasks -= 1, total_executed + workers that have run their task but not yet counted it =
+   number of executed tasks, and a worker is in the phase `found / running` exactly when it holds a task *)
+Theorem executor_counters :
+  forall (cap : N) (nw nsub : nat) (steps : list xstep),
+    let x := xrun cap nw nsub steps in
+    x_active x = N.of_nat (count ph_active (x_ph x)) /\
+    x_executed x + N.of_nat (count ph_uncounted (x_ph x)) = nlen (edone (x_e x)) /\
+    (forall w ph, nth_error (x_ph x) w = Some ph ->
+       (ph_holds ph = true <-> exists t, nth_error (erun (x_e x)) w = Some (Some t))).
+Proof. exact executor_counters_proof. Qed.
+Check executor_counters :
+  forall (cap : N) (nw nsub : nat) (steps : list xstep),
+    let x := xrun cap nw nsub steps in
+    x_active x = N.of_nat (count ph_active (x_ph x)) /\
+    x_executed x + N.of_nat (count ph_uncounted (x_ph x)) = nlen (edone (x_e x)) /\
+    (forall w ph, nth_error (x_ph x) w = Some ph ->
+       (ph_holds ph = true <-> exists t, nth_error (erun (x_e x)) w = Some (Some t))).
+Print Assumptions executor_counters.
+
+(* The capacity bound: under every interleaving (racing submitters included) no local queue ever holds more than
+   queue_capacity tasks and the global queue never more than 10000 *)
+Theorem executor_capacity_bound :
+  forall (cap : N) (nw nsub : nat) (steps : list xstep),
+    let x := xrun cap nw nsub steps in
+    (forall i q, nth_error (eqs (x_e x)) i = Some q -> nlen (qlocal q) <= cap) /\
+    nlen (eglob (x_e x)) <= GLOBAL_CAP.
+Proof. exact executor_capacity_proof. Qed.
+Check executor_capacity_bound :
+  forall (cap : N) (nw nsub : nat) (steps : list xstep),
+    let x := xrun cap nw nsub steps in
+    (forall i q, nth_error (eqs (x_e x)) i = Some q -> nlen (qlocal q) <= cap) /\
+    nlen (eglob (x_e x)) <= GLOBAL_CAP.
+Print Assumptions executor_capacity_bound.
+
+(* Admission: an undisturbed submit() (probe, then the push it decided on) in any state with at least one worker is
+   exactly Model.submit - worker next_worker mod n (round robin, next_worker + 1 wrapping at 2^64), its local queue
+   by priority if it has room, else the global queue by priority if it holds fewer than 10000, else rejected - and
+   the submission is recorded as accepted resp. rejected accordingly; phases and counters are untouched *)
+Theorem submit_admission :
+  forall (cap : N) (x : xexec) (t : task),
+    nth_error (x_subs x) 0 = Some SbIdle -> eqs (x_e x) <> [] ->
+    x_e (xsubmit cap x t) = snd (submit cap (x_e x) t) /\
+    x_acc (xsubmit cap x t) = (if fst (submit cap (x_e x) t) then x_acc x ++ [t] else x_acc x) /\
+    x_rej (xsubmit cap x t) = (if fst (submit cap (x_e x) t) then x_rej x else x_rej x ++ [t]) /\
+    x_ph (xsubmit cap x t) = x_ph x /\ x_active (xsubmit cap x t) = x_active x /\ x_executed (xsubmit cap x t) = x_executed x /\
+    nth_error (x_subs (xsubmit cap x t)) 0 = Some SbIdle.
+Proof. exact xsubmit_refines. Qed.
+Check submit_admission :
+  forall (cap : N) (x : xexec) (t : task),
+    nth_error (x_subs x) 0 = Some SbIdle -> eqs (x_e x) <> [] ->
+    x_e (xsubmit cap x t) = snd (submit cap (x_e x) t) /\
+    x_acc (xsubmit cap x t) = (if fst (submit cap (x_e x) t) then x_acc x ++ [t] else x_acc x) /\
+    x_rej (xsubmit cap x t) = (if fst (submit cap (x_e x) t) then x_rej x else x_rej x ++ [t]) /\
+    x_ph (xsubmit cap x t) = x_ph x /\ x_active (xsubmit cap x t) = x_active x /\ x_executed (xsubmit cap x t) = x_executed x /\
+    nth_error (x_subs (xsubmit cap x t)) 0 = Some SbIdle.
+Print Assumptions submit_admission.
+
+(* the race inside submit() is real in the model: two threads probe the same local queue with one free slot, the
+   second push_local fails and that submission is rejected (its task is dropped, never queued) *)
+Theorem submit_race_rejects :
+  let a := mkT 0 0 true in let b := mkT 1 0 true in
+  let x := xrun 1 1 2 [XProbe 0 a; XProbe 1 b; XPush 0; XPush 1] in
+  x_acc x = [a] /\ x_rej x = [b] /\ queued (x_e x) = [a].
+Proof. exact submit_race_proof. Qed.
+Check submit_race_rejects :
+  let a := mkT 0 0 true in let b := mkT 1 0 true in
+  let x := xrun 1 1 2 [XProbe 0 a; XProbe 1 b; XPush 0; XPush 1] in
+  x_acc x = [a] /\ x_rej x = [b] /\ queued (x_e x) = [a].
+Print Assumptions submit_race_rejects.
+
+(* is_idle() as written (active_tasks == 0 && total_queued() == 0), in every reachable state: if it returns true and
+   no worker is between find_task and active_tasks += 1, every accepted task has been executed; and once every
+   accepted task has been executed and no worker is between its increment and its decrement, it returns true
+   (the executor becomes idle after the last task finishes) *)
+Theorem is_idle_characterised :
+  forall (cap : N) (nw nsub : nat) (steps : list xstep),
+    let x := xrun cap nw nsub steps in
+    (x_is_idle x = true -> (forall w, nth_error (x_ph x) w <> Some PhFound) -> Permutation (edone (x_e x)) (x_acc x)) /\
+    (Permutation (edone (x_e x)) (x_acc x) -> (forall w ph, nth_error (x_ph x) w = Some ph -> ph_active ph = false) ->
+       x_is_idle x = true).
+Proof. exact is_idle_proof. Qed.
+Check is_idle_characterised :
+  forall (cap : N) (nw nsub : nat) (steps : list xstep),
+    let x := xrun cap nw nsub steps in
+    (x_is_idle x = true -> (forall w, nth_error (x_ph x) w <> Some PhFound) -> Permutation (edone (x_e x)) (x_acc x)) /\
+    (Permutation (edone (x_e x)) (x_acc x) -> (forall w ph, nth_error (x_ph x) w = Some ph -> ph_active ph = false) ->
+       x_is_idle x = true).
+Print Assumptions is_idle_characterised.
+
+(* ... and the excluded window exists: one accepted task, popped by the worker, active_tasks not yet incremented -
+   is_idle() is true although nothing has run (reproduced on the real executor through the hook: after the find_task
+   that takes the last task is_idle() returns true while the caller still holds the task) *)
+Theorem is_idle_window_exists :
+  let x := xrun 4 1 1 idle_window_steps in
+  x_is_idle x = true /\ x_acc x = [idle_window_task] /\ edone (x_e x) = [] /\ x_held x = [idle_window_task] /\
+  nth_error (x_ph x) 0 = Some PhFound.
+Proof. exact is_idle_window_proof. Qed.
+Check is_idle_window_exists :
+  let x := xrun 4 1 1 idle_window_steps in
+  x_is_idle x = true /\ x_acc x = [idle_window_task] /\ edone (x_e x) = [] /\ x_held x = [idle_window_task] /\
+  nth_error (x_ph x) 0 = Some PhFound.
+Print Assumptions is_idle_window_exists.
+
+(* concurrency::parallel_reduce as written (chunk_size = (len + ncpu - 1) / ncpu, chunks(), one tokio task per chunk,
+   join_all, final fold): for every ncpu >= 1, input and schedule of the chunk tasks the chunks partition the input
+   (at most ncpu of them, none empty), and for a monoid the call returns the sequential left fold whenever it returns *)
+Theorem global_reduce_is_fold :
+  forall (T : Type) (g : T -> T -> T) (ident : T),
+    (forall a b c, g (g a b) c = g a (g b c)) -> (forall a, g ident a = a) -> (forall a, g a ident = a) ->
+    forall (ncpu maxf : N) (xs : list T) (steps : list pstep),
+      0 < ncpu ->
+      let op := fun a b => Some (g a b) in
+      (forall r, g_reduce_result op ident ncpu xs (pool_run (g_reduce_jobs op ident ncpu xs) maxf steps) = Some r ->
+                 r = Some (fold_left g xs ident)) /\
+      (1 <= maxf -> exists more,
+         g_reduce_result op ident ncpu xs (pool_run (g_reduce_jobs op ident ncpu xs) maxf (steps ++ more)) <> None).
+Proof. exact g_reduce_is_fold_proof. Qed.
+Check global_reduce_is_fold :
+  forall (T : Type) (g : T -> T -> T) (ident : T),
+    (forall a b c, g (g a b) c = g a (g b c)) -> (forall a, g ident a = a) -> (forall a, g a ident = a) ->
+    forall (ncpu maxf : N) (xs : list T) (steps : list pstep),
+      0 < ncpu ->
+      let op := fun a b => Some (g a b) in
+      (forall r, g_reduce_result op ident ncpu xs (pool_run (g_reduce_jobs op ident ncpu xs) maxf steps) = Some r ->
+                 r = Some (fold_left g xs ident)) /\
+      (1 <= maxf -> exists more,
+         g_reduce_result op ident ncpu xs (pool_run (g_reduce_jobs op ident ncpu xs) maxf (steps ++ more)) <> None).
+Print Assumptions global_reduce_is_fold.
+
+(* the chunks of concurrency::parallel_reduce: concatenate to the input, none empty or longer than the chunk size, at most ncpu tasks *)
+Theorem global_reduce_chunks_partition :
+  forall (T : Type) (ncpu : N) (xs : list T), 0 < ncpu ->
+    concat (g_chunks ncpu xs) = xs /\
+    Forall (fun c => c <> [] /\ nlen c <= g_chunk_size (nlen xs) ncpu) (g_chunks ncpu xs) /\
+    nlen (g_chunks ncpu xs) <= ncpu.
+Proof. exact (@g_chunks_shape). Qed.
+Check global_reduce_chunks_partition :
+  forall (T : Type) (ncpu : N) (xs : list T), 0 < ncpu ->
+    concat (g_chunks ncpu xs) = xs /\
+    Forall (fun c => c <> [] /\ nlen c <= g_chunk_size (nlen xs) ncpu) (g_chunks ncpu xs) /\
+    nlen (g_chunks ncpu xs) <= ncpu.
+Print Assumptions global_reduce_chunks_partition.
+
+(* a failing item makes concurrency::parallel_reduce return Err under every schedule *)
+Theorem global_reduce_error_surfaces :
+  forall (T : Type) (op : T -> T -> option T) (ident : T) (ncpu maxf : N) (xs : list T) (steps : list pstep) (x : T),
+    0 < ncpu -> In x xs -> (forall a, op a x = None) ->
+    forall r, g_reduce_result op ident ncpu xs (pool_run (g_reduce_jobs op ident ncpu xs) maxf steps) = Some r -> r = None.
+Proof. exact g_reduce_error_proof. Qed.
+Check global_reduce_error_surfaces :
+  forall (T : Type) (op : T -> T -> option T) (ident : T) (ncpu maxf : N) (xs : list T) (steps : list pstep) (x : T),
+    0 < ncpu -> In x xs -> (forall a, op a x = None) ->
+    forall r, g_reduce_result op ident ncpu xs (pool_run (g_reduce_jobs op ident ncpu xs) maxf steps) = Some r -> r = None.
+Print Assumptions global_reduce_error_surfaces.
